@@ -138,6 +138,39 @@ Proof.
     + eapply einv_step; eauto.
 Qed.
 
+Definition in_hphase (p : lpc) : bool := match p with LHandlers _ _ | LDone => true | _ => false end.
+
+Lemma hphase_mono s l s' : step s l = Some s' -> in_hphase (pc s) = true -> in_hphase (pc s') = true.
+Proof.
+  intros Hs Hp.
+  destruct l; cbn [Model.step] in Hs; inv_guard Hs; injection Hs as <-; split_guard; use_after;
+    unfold set_nd, set_pc, set_err, set_hst; cbn [pc]; try assumption; try reflexivity.
+  all: try (match goal with H : is_head (pc _) = true |- _ => apply is_head_eq in H; rewrite H in Hp; discriminate end).
+  all: try (match goal with H : is_committed (pc _) _ = true |- _ => apply is_committed_eq in H; rewrite H in Hp; discriminate end).
+Qed.
+
+(* before the handlers are chosen nothing is decided: Status is computed from the node table *)
+Lemma undecided_step s l s' : (in_hphase (pc s) = false -> decided s = None) -> step s l = Some s' ->
+  in_hphase (pc s') = false -> decided s' = None.
+Proof.
+  intros H0 Hs Hp.
+  assert (Hp0 : in_hphase (pc s) = false).
+  { destruct (in_hphase (pc s)) eqn:E; [|reflexivity]. rewrite (hphase_mono _ _ _ Hs E) in Hp. discriminate. }
+  specialize (H0 Hp0).
+  destruct l; cbn [Model.step] in Hs; inv_guard Hs; injection Hs as <-; use_after;
+    unfold set_nd, set_pc, set_err, set_hst in *; cbn [decided pc] in *; try assumption; try discriminate.
+Qed.
+
+Lemma reach_undecided s : Reach c s -> in_hphase (pc s) = false -> decided s = None.
+Proof.
+  intros [ls Hr]. revert Hr.
+  assert (H0 : in_hphase (pc (init c)) = false -> decided (init c) = None) by reflexivity.
+  revert H0. generalize (init c).
+  induction ls as [|l ls IH]; simpl; intros s0 H0 Hr.
+  - injection Hr as <-. exact H0.
+  - destruct (step s0 l) eqn:Hs; [|discriminate]. eapply IH; [|exact Hr]. eapply undecided_step; eauto.
+Qed.
+
 (* ---------------------------------------------------------------------------------------------- *)
 (* C04: the outcome reported by Scheduler.Status at the moment the handlers are chosen              *)
 (* ---------------------------------------------------------------------------------------------- *)
@@ -158,9 +191,10 @@ Proof.
 Qed.
 
 (* canceled: by definition "the stop flag is set and not every step is finished or skipped" *)
-Theorem overall_canceled_iff s : overall c s = OCancel <-> (canceled s = true /\ is_succeed c s = false).
+Theorem overall_canceled_iff s : decided s = None ->
+  (overall c s = OCancel <-> (canceled s = true /\ is_succeed c s = false)).
 Proof.
-  unfold overall. destruct (canceled s), (is_succeed c s); cbn [andb negb];
+  intros Hdn. unfold overall. rewrite Hdn. unfold computed_overall. destruct (canceled s), (is_succeed c s); cbn [andb negb];
     destruct (graph_running c s), (lasterr s), (all_terminal c s); cbn [negb];
     split; intros H; try discriminate; try reflexivity; try (destruct H; discriminate); auto.
 Qed.
@@ -170,8 +204,10 @@ Theorem overall_finished_iff s : Reach c s -> pc s = LExited -> timedout s = fal
   (overall c s = OSuccess <-> is_succeed c s = true).
 Proof.
   intros Hr Hpc Ht. destruct (reach_einv s Hr) as [HI HE]. destruct (reach_all_inv c Hnorep s Hr) as (_ & _ & HX).
+  assert (Hdn : decided s = None) by (apply reach_undecided; [exact Hr|rewrite Hpc; reflexivity]).
+  unfold overall. rewrite Hdn. fold (computed_overall c s).
   split.
-  - intros Ho. unfold overall in Ho.
+  - intros Ho. unfold computed_overall in Ho.
     destruct (canceled s) eqn:Ec; cbn [andb] in Ho.
     + destruct (is_succeed c s); [reflexivity|discriminate].
     + destruct (graph_running c s); [discriminate|]. destruct (lasterr s) eqn:El; [discriminate|].
@@ -181,7 +217,7 @@ Proof.
       * rewrite (e1 _ HE i Est) in El. discriminate.
       * rewrite (e2 _ HE Ec Ht i Est) in El. discriminate.
   - intros Hsu. pose proof (proj1 (is_succeed_spec s) Hsu) as Hall.
-    unfold overall. rewrite Hsu. rewrite Bool.andb_false_r.
+    unfold computed_overall. rewrite Hsu. rewrite Bool.andb_false_r.
     assert (Hat : all_terminal c s = true).
     { unfold all_terminal. apply forallb_forall. intros i Hi. apply in_seq in Hi. specialize (Hall i ltac:(lia)).
       unfold node_ok in Hall. destruct (st (nd s i)); try discriminate; reflexivity. }
@@ -200,13 +236,15 @@ Theorem overall_failed_iff s : Reach c s -> pc s = LExited -> timedout s = false
 Proof.
   intros Hr Hpc Ht. destruct (reach_einv s Hr) as [HI HE].
   destruct (reach_all_inv c Hnorep s Hr) as (_ & HQ & HX).
+  assert (Hdn : decided s = None) by (apply reach_undecided; [exact Hr|rewrite Hpc; reflexivity]).
   split.
   - intros Ho. assert (Hnc : ~ (canceled s = true /\ is_succeed c s = false)).
-    { intros Hc. apply overall_canceled_iff in Hc. congruence. }
+    { intros Hc. apply (overall_canceled_iff s Hdn) in Hc. congruence. }
     split; [exact Hnc|].
-    unfold overall in Ho. destruct (canceled s) eqn:Ec; cbn [andb] in Ho.
+    unfold overall in Ho. rewrite Hdn in Ho. unfold computed_overall in Ho. destruct (canceled s) eqn:Ec; cbn [andb] in Ho.
     + destruct (is_succeed c s) eqn:Es; [|discriminate]. exfalso.
-      pose proof (proj2 (overall_finished_iff s Hr Hpc Ht) Es) as Hf. unfold overall in Hf. rewrite Ec, Es in Hf.
+      pose proof (proj2 (overall_finished_iff s Hr Hpc Ht) Es) as Hf. unfold overall in Hf. rewrite Hdn in Hf.
+      unfold computed_overall in Hf. rewrite Ec, Es in Hf.
       cbn [andb negb] in Hf, Ho. congruence.
     + destruct (graph_running c s); [discriminate|]. destruct (lasterr s) eqn:El; [|destruct (all_terminal c s); discriminate].
       destruct (e3 _ HE El) as (i & Hi & Hw). exists i. split; [exact Hi|].
@@ -218,7 +256,7 @@ Proof.
     { destruct (is_succeed c s) eqn:Es; [|reflexivity]. pose proof (proj1 (is_succeed_spec s) Es i Hi) as X.
       rewrite Hei in X. discriminate. }
     assert (Ec : canceled s = false) by (destruct (canceled s); [exfalso; apply Hnc; auto|reflexivity]).
-    unfold overall. rewrite Ec. cbn [andb].
+    unfold overall. rewrite Hdn. unfold computed_overall. rewrite Ec. cbn [andb].
     destruct (HX (conj Ec Ht)) as [HX1 _]. rewrite Hpc in HX1. specialize (HX1 eq_refl).
     rewrite graph_running_false.
     + rewrite (e1 _ HE i Hei). reflexivity.
@@ -234,7 +272,7 @@ Definition hstarts (ls : list label) : list handler := flat_map hstart_of ls.
 (* labels of the scheduling loop and of the step workers *)
 Definition is_node_label (l : label) : bool :=
   match l with
-  | SigFlag | SigNode _ | Timeout | HBegin | HStart _ | HEnd _ _ | HSkip _ | HRefused _ | HFinish => false
+  | SigFlag | SigNode _ | Timeout | HBegin | HStart _ | HEnd _ _ | HSkip _ | HFinish => false
   | _ => true end.
 Definition expected (todo : list handler) (cur : bool) : list handler := if cur then tl todo else todo.
 Definition gone (s : state) : Prop := forall i, i < n -> worker_gone (nd s i) = true.
@@ -258,22 +296,12 @@ Proof.
     unfold set_nd, set_pc, set_err, set_hst in *; cbn [lasterr] in *; auto.
 Qed.
 
-Definition in_hphase (p : lpc) : bool := match p with LHandlers _ _ | LDone => true | _ => false end.
 Definition exp_of (p : lpc) : list handler := match p with LHandlers todo cur => expected todo cur | _ => [] end.
-
-Lemma hphase_mono s l s' : step s l = Some s' -> in_hphase (pc s) = true -> in_hphase (pc s') = true.
-Proof.
-  intros Hs Hp.
-  destruct l; cbn [Model.step] in Hs; inv_guard Hs; injection Hs as <-; split_guard; use_after;
-    unfold set_nd, set_pc, set_err, set_hst; cbn [pc]; try assumption; try reflexivity.
-  all: try (match goal with H : is_head (pc _) = true |- _ => apply is_head_eq in H; rewrite H in Hp; discriminate end).
-  all: try (match goal with H : is_committed (pc _) _ = true |- _ => apply is_committed_eq in H; rewrite H in Hp; discriminate end).
-Qed.
 
 (* one label in the handler phase (or after Done) *)
 Lemma handler_phase_step s l s' : in_hphase (pc s) = true -> gone s -> step s l = Some s' ->
   is_node_label l = false /\ gone s' /\ in_hphase (pc s') = true /\
-  (dry c = false -> timedout s = false -> hstart_of l ++ exp_of (pc s') = exp_of (pc s)).
+  (dry c = false -> hstart_of l ++ exp_of (pc s') = exp_of (pc s)).
 Proof.
   intros Hph Hg Hs.
   destruct (pc s) as [| | |todo cur|] eqn:Hpc; try discriminate Hph.
@@ -288,29 +316,24 @@ Proof.
   all: injection Hs as <-.
   all: split; [reflexivity|].
   all: unfold set_nd, set_pc, set_err, set_hst, upd; cbn [nd pc]; rewrite ?Hpc.
-  all: try (split; [exact Hg|]; split; [reflexivity|]; intros Hd Ht; cbn; try reflexivity; try congruence; fail).
+  all: try (split; [exact Hg|]; split; [reflexivity|]; intros Hd; cbn; try reflexivity; try congruence; fail).
   all: try (split; [intros j Hj; specialize (Hg j Hj); unfold worker_gone in *; cbn [nd];
                     match goal with |- context [j =? ?k] => destruct (Nat.eqb_spec j k) as [->|Hne]; [|exact Hg] end;
                     nsimpl; exact Hg|]; split; [reflexivity|]; intros; reflexivity).
   (* HStart *)
-  split; [exact Hg|]. split; [reflexivity|]. intros _ _. cbn. destruct h, h0; try discriminate; reflexivity.
+  split; [exact Hg|]. split; [reflexivity|]. intros _. cbn. destruct h, h0; try discriminate; reflexivity.
 Qed.
 
 Lemma handler_phase_run ls : forall s s', in_hphase (pc s) = true -> gone s ->
-  run c s ls = Some s' -> dry c = false -> timedout s' = false ->
+  run c s ls = Some s' -> dry c = false ->
   hstarts ls ++ exp_of (pc s') = exp_of (pc s) /\ forallb (fun l => negb (is_node_label l)) ls = true /\
   in_hphase (pc s') = true.
 Proof.
-  induction ls as [|l ls IH]; intros s s' Hph Hg Hr Hdry Ht.
+  induction ls as [|l ls IH]; intros s s' Hph Hg Hr Hdry.
   - simpl in Hr. injection Hr as <-. auto.
   - simpl in Hr. destruct (step s l) as [s1|] eqn:Hs; [|discriminate].
     destruct (handler_phase_step s l s1 Hph Hg Hs) as (Hnl & Hg1 & Hph1 & He).
-    destruct (IH s1 s' Hph1 Hg1 Hr Hdry Ht) as (Hh & Hf & Hp').
-    assert (Ht1 : timedout s1 = false).
-    { clear - Hr Ht Hdone Hnorep. revert s1 Hr. induction ls as [|l2 ls IH2]; simpl; intros s1 Hr.
-      - injection Hr as <-. exact Ht.
-      - destruct (step s1 l2) as [s2|] eqn:Hs2; [|discriminate]. eapply timedout_back; [exact Hs2|]. eapply IH2; eauto. }
-    pose proof (timedout_back _ _ _ Hs Ht1) as Ht0.
+    destruct (IH s1 s' Hph1 Hg1 Hr Hdry) as (Hh & Hf & Hp').
     split; [|split; [cbn [forallb]; rewrite Hnl, Hf; reflexivity|exact Hp']].
     cbn [hstarts flat_map]. fold (hstarts ls). rewrite <- app_assoc, Hh. apply He; assumption.
 Qed.
@@ -324,17 +347,21 @@ Proof. eexists. split; reflexivity. Qed.
    order, the configured ones among [the handler of the outcome at HBegin; onExit], each once. *)
 Theorem handlers_trace ls1 ls2 s1 s2 s3 :
   run c (init c) ls1 = Some s1 -> step s1 HBegin = Some s2 -> run c s2 ls2 = Some s3 ->
-  pc s3 = LDone -> dry c = false -> timedout s3 = false ->
+  pc s3 = LDone -> dry c = false ->
   hstarts ls1 = [] /\ hstarts ls2 = handlers_for c s1 /\
   forallb (fun l => negb (is_node_label l)) ls2 = true /\ gone s1.
 Proof.
-  intros H1 H2 H3 Hd Hdry Ht.
-  assert (Hg1 : gone s1 /\ pc s1 = LExited /\ s2 = set_pc s1 (LHandlers (handlers_for c s1) false)).
+  intros H1 H2 H3 Hd Hdry.
+  assert (Hg1 : gone s1 /\ pc s1 = LExited /\ pc s2 = LHandlers (handlers_for c s1) false /\ gone s2).
   { cbn [Model.step] in H2. destruct (pc s1) eqn:Ep; try discriminate. destruct (all_gone c s1) eqn:Eg; [|discriminate].
-    injection H2 as <-. split; [|auto]. intros i Hi. unfold all_gone in Eg. exact (forallb_seq_lt _ _ Eg i Hi). }
-  destruct Hg1 as (Hg1 & Hp1 & ->).
-  destruct (handler_phase_run ls2 (set_pc s1 (LHandlers (handlers_for c s1) false)) s3 eq_refl Hg1 H3 Hdry Ht) as (Hh & Hf & _).
-  rewrite Hd in Hh. cbn [exp_of set_pc pc expected] in Hh. rewrite app_nil_r in Hh.
+    injection H2 as <-. cbn [pc nd].
+    assert (Hg : gone s1) by (intros i Hi; unfold all_gone in Eg; exact (forallb_seq_lt _ _ Eg i Hi)).
+    repeat split; auto. }
+  destruct Hg1 as (Hg1 & Hp1 & Hp2 & Hg2).
+  assert (Hph2 : in_hphase (pc s2) = true) by (rewrite Hp2; reflexivity).
+  destruct (handler_phase_run ls2 s2 s3 Hph2 Hg2 H3 Hdry) as (Hh & Hf & _).
+  rewrite Hp2 in Hh.
+  rewrite Hd in Hh. cbn [exp_of expected] in Hh. rewrite app_nil_r in Hh.
   split; [|auto].
   (* no handler starts before HBegin: HStart needs pc = LHandlers, which only HBegin establishes *)
   clear - H1 Hp1 Hdone Hnorep.
@@ -356,91 +383,33 @@ Proof.
 Qed.
 
 (* ---------------------------------------------------------------------------------------------- *)
-(* F4a: a stop that arrives while the handlers run changes the reported outcome after the fact      *)
+(* The outcome is decided once (fix 08917f8): what Status reports at Done is what the handlers ran for *)
+(* (before the fix a stop request arriving while the handlers ran relabelled the run canceled: F4a).   *)
 (* ---------------------------------------------------------------------------------------------- *)
-Definition SigLt (s : state) : Prop := Forall (fun i => i < n) (sigq s).
-
-Lemma siglt_step s l s' : SigLt s -> step s l = Some s' -> SigLt s'.
+Lemma decided_kept s l s' o : step s l = Some s' -> decided s = Some o -> decided s' = Some o.
 Proof.
-  intros H0 Hs. unfold SigLt in *.
+  intros Hs Hd.
   destruct l; cbn [Model.step] in Hs; inv_guard Hs; injection Hs as <-; use_after;
-    unfold set_nd, set_pc, set_err, set_hst; cbn [sigq]; try assumption.
-  all: try (apply Forall_app; split; [assumption|]; apply Forall_forall; intros x Hx; apply in_seq in Hx; lia).
-  all: try (rewrite M in H0); inversion H0; assumption.
+    unfold set_nd, set_pc, set_err, set_hst; cbn [decided]; try assumption.
+  unfold overall. rewrite Hd. reflexivity.
 Qed.
 
-Lemma siglt_run ls : forall s s', SigLt s -> run c s ls = Some s' -> SigLt s'.
+Lemma decided_kept_run ls : forall s s' o, run c s ls = Some s' -> decided s = Some o -> decided s' = Some o.
 Proof.
-  induction ls as [|l ls IH]; simpl; intros s s' H0 Hr; [injection Hr as <-; exact H0|].
-  destruct (step s l) eqn:Hs; [|discriminate]. eapply IH; [eapply siglt_step; eauto|exact Hr].
+  induction ls as [|l ls IH]; simpl; intros s s' o Hr Hd; [injection Hr as <-; exact Hd|].
+  destruct (step s l) eqn:Hs; [|discriminate]. eapply IH; [exact Hr|]. eapply decided_kept; eauto.
 Qed.
 
-(* flipping a running node to canceled in a canceled run does not change the outcome *)
-Lemma overall_flip s i : i < n -> canceled s = true -> st (nd s i) = NRunning ->
-  overall c (set_nd s i (with_st (nd s i) NCancel)) = overall c s.
-Proof.
-  intros Hi Hc Hr.
-  assert (H1 : is_succeed c s = false).
-  { destruct (is_succeed c s) eqn:E; [|reflexivity]. pose proof (proj1 (is_succeed_spec s) E i Hi) as X.
-    rewrite Hr in X. discriminate. }
-  assert (H2 : is_succeed c (set_nd s i (with_st (nd s i) NCancel)) = false).
-  { destruct (is_succeed c (set_nd s i (with_st (nd s i) NCancel))) eqn:E; [|reflexivity].
-    pose proof (proj1 (is_succeed_spec _) E i Hi) as X. unfold set_nd, upd in X. cbn [nd] in X.
-    rewrite Nat.eqb_refl in X. discriminate. }
-  unfold overall. rewrite H2, H1. unfold set_nd. cbn [canceled]. rewrite Hc. reflexivity.
-Qed.
-
-Lemma overall_stable_step s l s' : in_hphase (pc s) = true -> gone s -> Inv s -> SigLt s ->
-  step s l = Some s' -> canceled s' = canceled s -> overall c s' = overall c s.
-Proof.
-  intros Hph Hg HI HL Hs Hc. pose proof (iF _ _ HI) as HF.
-  destruct (handler_phase_step s l s' Hph Hg Hs) as (Hnl & _).
-  destruct l; try discriminate Hnl; cbn [Model.step] in Hs; inv_guard Hs; injection Hs as <-;
-    unfold set_pc, set_hst in *; cbn [canceled] in *; try reflexivity.
-  - (* SigFlag with the flag already set *) unfold overall. cbn [canceled]. rewrite <- Hc. reflexivity.
-  - (* SigNode flips a node *)
-    unfold SigLt in HL. rewrite M in HL. inversion HL as [|? ? Hlt _]; subst.
-    assert (Hcan : canceled s = true) by (apply HF; congruence).
-    match goal with |- overall c (set_nd ?s0 ?i ?y) = _ =>
-      change (overall c (set_nd s0 i (with_st (nd s0 i) NCancel)) = overall c s);
-      rewrite (overall_flip s0 i Hlt Hcan M1) end.
-    reflexivity.
-Qed.
-
-Lemma gone_run_stable ls : forall s s', in_hphase (pc s) = true -> gone s -> Inv s -> SigLt s ->
-  run c s ls = Some s' -> canceled s' = canceled s -> overall c s' = overall c s.
-Proof.
-  induction ls as [|l ls IH]; intros s s' Hph Hg HI HL Hr Hc; [simpl in Hr; injection Hr as <-; reflexivity|].
-  simpl in Hr. destruct (step s l) as [s1|] eqn:Hs; [|discriminate].
-  destruct (handler_phase_step s l s1 Hph Hg Hs) as (_ & Hg1 & Hph1 & _).
-  assert (Hc1 : canceled s1 = canceled s).
-  { destruct (canceled s) eqn:E; [eapply canceled_mono; eauto|].
-    destruct (canceled s1) eqn:E1; [|reflexivity]. exfalso.
-    assert (canceled s' = true).
-    { clear - Hr E1 Hdone Hnorep. revert s1 Hr E1. induction ls as [|l2 ls IH2]; simpl; intros s1 Hr E1; [injection Hr as <-; exact E1|].
-      destruct (step s1 l2) eqn:Hs2; [|discriminate]. eapply IH2; [exact Hr|]. eapply canceled_mono; eauto. }
-    congruence. }
-  rewrite <- (overall_stable_step s l s1 Hph Hg HI HL Hs Hc1).
-  apply (IH s1 s' Hph1 Hg1 (inv_step c Hnorep _ _ _ HI Hs) (siglt_step _ _ _ HL Hs) Hr). congruence.
-Qed.
-
-(* C04, partial: if no stop request arrives between the choice of the handlers and Done, the outcome reported at the
-   end is the outcome the handlers were chosen for *)
-Theorem outcome_stable_partial ls1 ls2 s1 s2 s3 :
+(* C04: the outcome reported once the run is Done (what the agent persists) is the outcome the handlers ran for *)
+Theorem outcome_stable ls1 ls2 s1 s2 s3 :
   run c (init c) ls1 = Some s1 -> step s1 HBegin = Some s2 -> run c s2 ls2 = Some s3 ->
-  canceled s3 = canceled s1 -> overall c s3 = overall c s1.
+  overall c s3 = overall c s1.
 Proof.
-  intros H1 H2 H3 Hc.
-  assert (Hr1 : Reach c s1) by (exists ls1; exact H1).
-  pose proof (reach_inv c Hnorep s1 Hr1) as HI.
-  assert (HL : SigLt s1) by (eapply siglt_run; [|exact H1]; constructor).
-  assert (Hs2 : gone s1 /\ s2 = set_pc s1 (LHandlers (handlers_for c s1) false)).
-  { cbn [Model.step] in H2. destruct (pc s1) eqn:Ep; try discriminate. destruct (all_gone c s1) eqn:Eg; [|discriminate].
-    injection H2 as <-. split; [|auto]. intros i Hi. unfold all_gone in Eg. exact (forallb_seq_lt _ _ Eg i Hi). }
-  destruct Hs2 as [Hg ->].
-  rewrite (gone_run_stable ls2 (set_pc s1 (LHandlers (handlers_for c s1) false)) s3 eq_refl Hg
-             (inv_step c Hnorep _ _ _ HI H2) HL H3 Hc).
-  reflexivity.
+  intros H1 H2 H3.
+  assert (Hd2 : decided s2 = Some (overall c s1)).
+  { cbn [Model.step] in H2. destruct (pc s1); try discriminate. destruct (all_gone c s1); [|discriminate].
+    injection H2 as <-. reflexivity. }
+  unfold overall at 1. rewrite (decided_kept_run ls2 s2 s3 _ H3 Hd2). reflexivity.
 Qed.
 
 (* ---------------------------------------------------------------------------------------------- *)
@@ -672,14 +641,34 @@ Qed.
 Lemma cancel_handlers s : overall c s = OCancel -> handlers_for c s = filter (hon c) [HCancel; HExit].
 Proof. intros H. unfold handlers_for. rewrite H. reflexivity. Qed.
 
-(* after the deadline no command and no handler command starts (the executor refuses an expired context) *)
-Lemma timeout_no_start s : timedout s = true ->
-  (forall i, step c s (WExecStart i) = None) /\ (forall h, step c s (HStart h) = None).
+(* after the deadline no step command starts (the executor refuses the expired context); the handlers are not bound by
+   the steps' deadline (fix 246fa0b) *)
+Lemma timeout_no_start s : timedout s = true -> forall i, step c s (WExecStart i) = None.
 Proof.
-  intros Ht. split.
-  - intros i. cbn [step]. destruct (ph (nd s i)); try reflexivity. rewrite Ht, Bool.andb_false_r. reflexivity.
-  - intros h. cbn [step]. destruct (pc s); try reflexivity. destruct todo; try reflexivity. destruct cur; try reflexivity.
-    rewrite Ht, Bool.andb_false_r. reflexivity.
+  intros Ht i. cbn [step]. destruct (ph (nd s i)); try reflexivity. rewrite Ht, Bool.andb_false_r. reflexivity.
+Qed.
+
+(* ... a chosen handler's command does start after a timeout *)
+Lemma handler_starts_after_timeout s h t0 : pc s = LHandlers (h :: t0) false -> dry c = false ->
+  exists s', step c s (HStart h) = Some s'.
+Proof.
+  intros Hp Hd. cbn [step]. rewrite Hp, Hd.
+  assert (handler_eqb h h = true) as -> by (destruct h; reflexivity). eexists. reflexivity.
+Qed.
+
+(* the escalation reaches a live command: a non-repeating step whose command executes is forwarded the signal by EVERY
+   pass that reaches it - also when an earlier pass has already flipped it to canceled (fix 767545b, F5a) *)
+Lemma escalation_reaches s k i q s' : Inv c s -> sigq s = i :: q -> ph (nd s i) = PExec ->
+  repeat (steps c i) = false -> step c s (SigNode k) = Some s' -> k = true /\ ph (nd s' i) = PExec.
+Proof.
+  intros HI Hq Hp Hrep Hs. pose proof (iD _ _ HI i) as HD. unfold counts in HD. rewrite Hp in HD.
+  destruct HD as [_ Hatt]. pose proof (iA _ _ HI i) as HA. unfold coherent in HA. rewrite Hp in HA.
+  cbn [step] in Hs. rewrite Hq, Hrep in Hs.
+  assert (Ha : (0 <? att (nd s i)) = true) by (apply Nat.ltb_lt; lia).
+  destruct HA as [Hst|Hst]; rewrite Hst in Hs.
+  - rewrite Ha in Hs. destruct k; cbn in Hs; [|discriminate]. injection Hs as <-. split; [reflexivity|].
+    unfold set_nd, upd. cbn [nd]. rewrite Nat.eqb_refl. exact Hp.
+  - rewrite Hp in Hs. destruct k; cbn in Hs; [|discriminate]. injection Hs as <-. split; [reflexivity|exact Hp].
 Qed.
 
 (* a command that was executing when the deadline passed and then ends is labelled canceled, the run failed *)
